@@ -123,6 +123,35 @@ func (g *Gen) Lines(e Event) Group {
 			}
 			return gr
 		}
+		if !e.Args && e.Tag%6 == 2 {
+			// rename over an existing target: five PATH records (two PARENT entries, the two names that go away, the one
+			// that is created); the summary's object is found through the syscall's path index, PARENT entries included
+			succ := ""
+			switch e.Res {
+			case "success":
+				succ = " success=yes exit=0"
+			case "fail":
+				succ = " success=no exit=-13"
+			}
+			dirn := fmt.Sprintf("/home/%s", user)
+			pp := func(item int, name, nametype string, inode int, mode string) string {
+				return fmt.Sprintf("type=PATH msg=%s: item=%d name=\"%s\" inode=%d dev=fd:00 mode=%s ouid=1000 ogid=1000 rdev=00:00 nametype=%s cap_fp=0 cap_fi=0 cap_fe=0 cap_fver=0",
+					st, item, name, inode, mode, nametype)
+			}
+			gr.Shape = "SYSCALL rename"
+			gr.Lines = []string{
+				fmt.Sprintf("type=SYSCALL msg=%s: arch=c000003e syscall=82%s a0=7ffd3a1c a1=7ffd3a25 a2=0 a3=0 items=5 ppid=%d pid=%d auid=1000 uid=1000 gid=1000 euid=1000 suid=1000 fsuid=1000 egid=1000 sgid=1000 fsgid=1000 tty=pts0%s comm=\"mv\" exe=\"/usr/bin/mv\" key=\"files\"",
+					st, succ, 2000+e.Tag, 4000+e.Tag, sesField(e.Sess)),
+				fmt.Sprintf("type=CWD msg=%s: cwd=\"%s\"", st, dirn),
+				pp(0, dirn, "PARENT", 100, "040755"),
+				pp(1, dirn, "PARENT", 100, "040755"),
+				pp(2, fmt.Sprintf("new-%d.conf", e.Tag), "DELETE", 201, "0100644"),
+				pp(3, fmt.Sprintf("app-%d.conf", e.Tag), "DELETE", 202, "0100644"),
+				pp(4, fmt.Sprintf("app-%d.conf", e.Tag), "CREATE", 201, "0100644"),
+				fmt.Sprintf("type=PROCTITLE msg=%s: proctitle=6D76006E65772E636F6E66006170702E636F6E66", st),
+			}
+			return gr
+		}
 		if e.Args || g.R.Intn(3) == 0 {
 			// compound event: SYSCALL [+ EXECVE] + CWD + PATH + PROCTITLE
 			succ := ""
